@@ -130,6 +130,19 @@ func genStr(t *rapid.T, depth int) *Node {
 }
 
 func genCase(t *rapid.T) Case {
+	c := genCase1(t)
+	if c.Root.Op == "leaf" && rapid.IntRange(0, 3).Draw(t, "keepleaf") > 0 {
+		// bare literals are only a quarter as frequent as the generator would make them
+		k := c.Root.K
+		if k == "s" {
+			return Case{&Node{Op: "+", L: c.Root, R: genLeaf(t, rapid.SampledFrom([]string{"i", "f", "s"}).Draw(t, "rk"))}}
+		}
+		return Case{&Node{Op: rapid.SampledFrom([]string{"+", "-", "*"}).Draw(t, "wrapop"), L: c.Root, R: genLeaf(t, k)}}
+	}
+	return c
+}
+
+func genCase1(t *rapid.T) Case {
 	depth := rapid.IntRange(1, 4).Draw(t, "depth")
 	switch rapid.IntRange(0, 9).Draw(t, "root") {
 	case 0, 1, 2:
